@@ -52,7 +52,7 @@ LEVEL['C01'] = dict(
          'own ellipsoid/projection.',
     note=PARTIAL + 'Here: |E − E_exact|, |N − N_exact| ≤ 0.2 mm (search against an exact-TM oracle by complex quadrature).' + TRUST + ' Spec/Krueger.lean derived by tools/derive_krueger.py.')
 LEVEL['C02'] = dict(
-    technique='Lean 4 theorems over the regenerated model (β series vs reference with explicit deviation polynomial, exact Gauss–Schreiber inverse, Newton target/derivative via HasDerivAt, loop-exit lemma, hemisphere mirror, validation iff; the stand-alone converter regenerated from Standalone/mga2gda.py and proved to be the library inverse with three Newton steps) + bitwise translator validation',
+    technique='Lean 4 theorems over the regenerated model (β series vs reference with explicit deviation polynomial, exact Gauss–Schreiber inverse, Newton target/derivative via HasDerivAt, loop-exit lemma, hemisphere mirror, validation iff; the stand-alone converter regenerated from Standalone/mga2gda.py and proved to be the library inverse with three Newton steps; on the sphere the inverse is proved to be the closed-form inverse spherical transverse Mercator and the round trip exact up to the output rounding) + bitwise translator validation',
     text='Machine-checked for all inputs: β coefficients equal the reference series except an explicit O(n^6) deviation of '
          'β2 bounded by 0.14 n^6; the inverse Gauss–Schreiber step exactly inverts the forward one; the Newton loop solves '
          'the forward conformal-latitude equation (ftn = 0 iff forward formula, f1tn is its derivative), exits within the '
